@@ -87,6 +87,14 @@ impl Acc {
         crate::rng::mix(&[h, self.sim_steps, self.evaluations, self.log_hash])
     }
 
+    /// merges the accumulator of a whole epoch (its log hash is already a hash over runs)
+    pub fn merge_batch(&mut self, o: Acc) {
+        let h = o.log_hash;
+        let prev = self.log_hash;
+        self.merge(o);
+        self.log_hash = prev.rotate_left(11) ^ h;
+    }
+
     pub fn merge(&mut self, o: Acc) {
         let run_digest = o.digest();
         for (k, v) in o.counters {
@@ -138,6 +146,11 @@ pub trait Property: Sync {
     fn runs(&self, tier: Tier) -> usize;
     /// One run. Returns the first violation found together with the scenario that reproduces it.
     fn run(&self, run_seed: u64, tier: Tier, acc: &mut Acc) -> Option<(Violation, Value)>;
+    /// probes of the shared accounting that cannot fire for this property's workload (with reason);
+    /// they are reported separately instead of under `probes_at_zero`
+    fn probes_not_applicable(&self) -> Vec<(&'static str, &'static str)> {
+        vec![]
+    }
     /// Re-executes a scenario (from a replay file or during minimisation).
     fn replay(&self, scenario: &Value, acc: &mut Acc) -> Result<Option<Violation>, String>;
     /// One-step shrink candidates of a scenario.
@@ -268,8 +281,56 @@ pub struct BatchResult {
     pub wall_s: f64,
 }
 
+/// Runs are executed in epochs of at most `EPOCH` consecutive run indices: within an epoch the
+/// workers take indices from a shared counter and the per-run results are merged in index order;
+/// epochs follow each other. This bounds the memory held for un-merged results and lets the
+/// batch print progress; the merged result is the same for every worker count.
+const EPOCH: usize = 100_000;
+
 pub fn run_batch(prop: &dyn Property, tier: Tier, seed: u64, n_runs: usize, known: &[KnownFinding]) -> BatchResult {
     let start = Instant::now();
+    let mut total = BatchResult {
+        acc: Acc::default(),
+        runs_done: 0,
+        first_violation: None,
+        wall_s: 0.0,
+    };
+    let mut base = 0usize;
+    while base < n_runs {
+        let n = EPOCH.min(n_runs - base);
+        let br = run_epoch(prop, tier, seed, base, n, known, start);
+        total.acc.merge_batch(br.acc);
+        total.runs_done += br.runs_done;
+        let incomplete = br.runs_done < n;
+        if total.first_violation.is_none() {
+            total.first_violation = br.first_violation;
+        }
+        if (total.first_violation.is_some() && std::env::var("VERIF_COLLECT").is_err()) || incomplete {
+            break;
+        }
+        base += n;
+        if n_runs > EPOCH && std::env::var("PATSIM_PROGRESS").is_ok() {
+            crate::harness::emergency_say(&format!(
+                "progress: {}/{} runs, {:.0} s\n",
+                total.runs_done,
+                n_runs,
+                start.elapsed().as_secs_f64()
+            ));
+        }
+    }
+    total.wall_s = start.elapsed().as_secs_f64();
+    total
+}
+
+fn run_epoch(
+    prop: &dyn Property,
+    tier: Tier,
+    seed: u64,
+    base: usize,
+    n_runs: usize,
+    known: &[KnownFinding],
+    start: Instant,
+) -> BatchResult {
     let next = AtomicUsize::new(0);
     let stop_at = AtomicUsize::new(usize::MAX);
     let results: Mutex<Vec<Option<(Acc, Option<(Violation, Value)>)>>> =
@@ -279,7 +340,7 @@ pub fn run_batch(prop: &dyn Property, tier: Tier, seed: u64, n_runs: usize, know
         .and_then(|s| s.parse().ok())
         .unwrap_or(match tier {
             Tier::Quick => 600.0,
-            Tier::Thorough => 7200.0,
+            Tier::Thorough => 1500.0,
         });
     let nw = workers().min(n_runs.max(1));
     // per worker: (run index + 1, start time in ms since `start`), 0 = idle
@@ -297,7 +358,7 @@ pub fn run_batch(prop: &dyn Property, tier: Tier, seed: u64, n_runs: usize, know
                 for (idx1, t0) in &slots {
                     let i = idx1.load(Ordering::SeqCst);
                     if i > 0 && now.saturating_sub(t0.load(Ordering::SeqCst)) > (limit as usize) * 1000 {
-                        let i = i - 1;
+                        let i = base + i - 1;
                         let rs = run_seed_for(seed, prop_id, i);
                         let path = write_timeout_replay(prop_id, seed, i, rs, tier, limit);
                         let msg = format!(
@@ -322,7 +383,7 @@ pub fn run_batch(prop: &dyn Property, tier: Tier, seed: u64, n_runs: usize, know
                     if start.elapsed().as_secs_f64() > wall_cap_s {
                         break;
                     }
-                    let rs = run_seed_for(seed, prop.id(), i);
+                    let rs = run_seed_for(seed, prop.id(), base + i);
                     let mut acc = Acc::default();
                     slots[my_slot].1.store(start.elapsed().as_millis() as usize, Ordering::SeqCst);
                     slots[my_slot].0.store(i + 1, Ordering::SeqCst);
@@ -330,7 +391,11 @@ pub fn run_batch(prop: &dyn Property, tier: Tier, seed: u64, n_runs: usize, know
                     let v = prop.run(rs, tier, &mut acc);
                     slots[my_slot].0.store(0, Ordering::SeqCst);
                     // wall-clock is observed outside the run and only reported (not part of any digest)
-                    acc.max("wall_ms_of_slowest_run", t_run.elapsed().as_millis() as u64);
+                    let ms = t_run.elapsed().as_millis() as u64;
+                    acc.max("wall_ms_of_slowest_run", ms);
+                    if ms > 10_000 && std::env::var("PATSIM_PROGRESS").is_ok() {
+                        crate::harness::emergency_say(&format!("slow run: index {} took {ms} ms\n", base + i));
+                    }
                     if v.is_some() && std::env::var("VERIF_COLLECT").is_err() {
                         // later runs are not needed: the first violation in index order wins
                         stop_at.fetch_min(i, Ordering::SeqCst);
@@ -364,11 +429,11 @@ pub fn run_batch(prop: &dyn Property, tier: Tier, seed: u64, n_runs: usize, know
                         let e = acc.known_hits.entry(format!("COLLECTED {key}")).or_insert_with(|| viol.detail.clone());
                         let _ = e;
                         if first_violation.is_none() {
-                            first_violation = Some((i, run_seed_for(seed, prop.id(), i), viol, scn));
+                            first_violation = Some((base + i, run_seed_for(seed, prop.id(), base + i), viol, scn));
                         }
                         continue;
                     }
-                    first_violation = Some((i, run_seed_for(seed, prop.id(), i), viol, scn));
+                    first_violation = Some((base + i, run_seed_for(seed, prop.id(), base + i), viol, scn));
                     break;
                 }
             }
@@ -443,6 +508,12 @@ pub fn write_evidence(
         .filter(|(k, _)| k.starts_with("probe."))
         .map(|(k, v)| (k.clone(), *v))
         .collect();
+    let na_probes = prop.probes_not_applicable();
+    let probes: BTreeMap<String, u64> = probes
+        .into_iter()
+        .filter(|(k, _)| !na_probes.iter().any(|(n, _)| n == k))
+        .collect();
+    let na_probes_json: Vec<Value> = na_probes.iter().map(|(n, r)| json!({"probe": n, "reason": r})).collect();
     let zero_probes: Vec<String> = probes
         .iter()
         .filter(|(_, v)| **v == 0)
@@ -469,6 +540,7 @@ pub fn write_evidence(
             "faults_fired": faults,
             "probes": probes,
             "probes_at_zero": zero_probes,
+            "probes_not_applicable": na_probes_json,
             "counters": acc.counters,
             "maxima": acc.maxima,
             "event_log_hash": format!("{:016x}", acc.log_hash),
@@ -524,12 +596,17 @@ pub fn check(prop: &dyn Property, tier: Tier, out: &Stdio) -> i32 {
     let code = match &br.first_violation {
         None => {
             out.say(&format!(
-                "OK {}: {} runs, {} evaluations, {} distinct, {:.1}s",
+                "OK {}: {} runs, {} evaluations, {} distinct, {:.1}s{}",
                 prop.id(),
                 br.runs_done,
                 br.acc.evaluations,
                 br.acc.distinct.len(),
-                br.wall_s
+                br.wall_s,
+                if br.runs_done < n {
+                    format!(" (wall-clock cap reached: {n} runs were planned)")
+                } else {
+                    String::new()
+                }
             ));
             0
         }
